@@ -237,6 +237,20 @@ def run(ctx):
         ctx.fail("C05.R3", "parents:via-parent", ps.file, ps.node.lineno, ps.qual,
                  "parents() no longer walks the chain through parent()")
 
+    # the guard these three rely on must itself detect a recycled PID
+    from .c01 import guard_cover
+    gfun = repo.func("psutil", "Process._raise_if_pid_reused")
+    for fl, leaks in guard_cover(repo, A):
+        if leaks:
+            ctx.fail("C05.R3", f"guard-effective:{fl}", gfun.file, gfun.node.lineno, gfun.qual,
+                     "_raise_if_pid_reused() can return normally for a recycled PID ("
+                     + ("it never consults is_running(), which is what detects the recycling"
+                        if fl.startswith("<") else f"{fl} set but no raise")
+                     + "): children()/parent()/parents() then describe the tree of "
+                     "whoever owns the PID now")
+        else:
+            ctx.ok("C05.R3", f"guard-effective:{fl}", nontrivial=False)
+
     # ------------------------------------------------------------------- R4
     ctx.rule("C05.R4", "parent(): the lowest-PID stop precedes the lookup; the "
              "parent object is returned only under parent.create_time() <= the "
@@ -330,6 +344,35 @@ def run(ctx):
             ctx.fail("C05.R5", key, ch.file, c.lineno, ch.qual,
                      f"`{norm_stmt(c)}`: a child vanishing mid-walk is no longer "
                      f"skipped (NoSuchProcess/ZombieProcess would escape children())")
+    # ------------------------------------------------------------------- R6
+    ctx.rule("C05.R6", "the PID->PPID table children() walks is read like "
+             "Process.ppid(): stat column 1 counted after the LAST ')' of each "
+             "<pid>/stat record (a name containing ') ' must not shift it)", floor=2)
+    from ..core.absint import Interp, alternatives, pretty
+    from ..oracles import linux as O
+    from .c06 import collect, evaluate, stat_atoms
+    I = Interp(repo, A)
+    pmf = repo.func("_pslinux", "ppid_map")
+    t = evaluate(I, pmf)
+    ds = [a for a in alternatives(t) if a[0] == "dictof"]
+    ctx.require(ds, "ppid_map(): result is not a {pid: ppid} table")
+    finds = collect(t, lambda x: x and x[0] == "find" and x[2][0] == "const"
+                    and x[2][1] in (b")", ")", b") ", ") "))
+    if finds and {f[3] for f in finds} == {"last"}:
+        ctx.ok("C05.R6", "ppid_map:last-paren", sample="end of comm = last ')'")
+    else:
+        ctx.fail("C05.R6", "ppid_map:last-paren", pmf.file, pmf.node.lineno, pmf.qual,
+                 "ppid_map() cuts <pid>/stat at the FIRST ')': for a process whose name "
+                 "contains ') ' the parent PID is read from the wrong field, so children() "
+                 "attaches it to the wrong parent (Process.ppid() uses the last ')')")
+    atoms = stat_atoms(ds[0][2])
+    if atoms and all(d["file"] == "pid/stat" and d["col"] == O.STAT["ppid"] for _, d in atoms):
+        ctx.ok("C05.R6", "ppid_map:column", sample={"stat_column": O.STAT["ppid"]})
+    else:
+        ctx.fail("C05.R6", "ppid_map:column", pmf.file, pmf.node.lineno, pmf.qual,
+                 f"ppid_map values come from {[(d['file'], d['col']) for _, d in atoms]}, "
+                 f"not stat column {O.STAT['ppid']}")
+
     ctx.assume("creation-time resolution and real PID recycling are run-time facts; "
                "only the guards that make the tree walk correct are decided")
     return ("CFG dominance and control-dependence facts in Process.children/parent/"
